@@ -208,6 +208,9 @@ def classify_mixture(res):
     return None
 
 
+TRACES = set()
+
+
 def explore(sh, lab, sched, program, bound, cap, pid):
     """Depth-first enumeration of schedules with at most ``bound`` pre-emptions."""
     seen = set()
@@ -224,8 +227,12 @@ def explore(sh, lab, sched, program, bound, cap, pid):
         pre = sum(1 for c in choices if c[2])
         record = {"program": [list(s) for s in program], "schedule": [c[1] for c in choices]}
         trace_hash = hash(tuple(res["trace"]))
+        TRACES.add((pid, trace_hash))
         sh.case((pid, trace_hash), pre >= 1 or any(k == "raise" for k, _ in program))
         sh.count("interleavings_run")
+        if pre >= 2 and len(sh.samples) < 2:
+            sh.sample({"program": [list(x) for x in program], "schedule_choices": [c[1] for c in choices], "preemptions": pre,
+                       "trace": ["%s:%s" % t for t in res["trace"]][:40]})
         judge(sh, res, program, record)
         # children: deviate at one later position
         taken = [c[1] for c in choices]
@@ -248,6 +255,7 @@ def run_random(sh, lab, sched, program, nsched, pid):
         res = run_schedule(lab, sched, program, [], rng=sh.rng)
         record = {"program": [list(s) for s in program], "schedule": [c[1] for c in res["choices"]]}
         pre = sum(1 for c in res["choices"] if c[2])
+        TRACES.add((pid, hash(tuple(res["trace"]))))
         sh.case((pid, hash(tuple(res["trace"]))), pre >= 1 or any(k == "raise" for k, _ in program))
         sh.count("interleavings_run")
         judge(sh, res, program, record)
@@ -448,7 +456,7 @@ def run(sh, spec):
             sh.count("programs")
             run_random(sh, lab, sched, progs[pid], spec["random"], pid)
         sh.count("programs_fully_enumerated_within_bound", complete)
-        sh.sample({"program": [list(s) for s in progs[spec["programs"][0]]], "preemption_bound": spec["bound"]})
+        sh.count("distinct_interleavings", len(TRACES))
     elif part == "stress":
         run_stress(sh, spec["trials"])
     else:
@@ -461,7 +469,8 @@ def finalize(tier, merged):
     for k in ("interleavings_run", "schedules_completed", "writes_replayed", "stress_trials", "manual_frames"):
         if not c.get(k):
             inc.append("counter %s is zero" % k)
-    return {"inconclusive": inc, "coverage": {"interleavings": merged["distinct"]}}
+    return {"inconclusive": inc, "coverage": {"interleavings": c.get("distinct_interleavings", 0),
+                                               "interleavings_note": "distinct (program, scheduler trace) pairs executed under the deterministic scheduler"}}
 
 
 def replay(sh, case):
